@@ -5,8 +5,11 @@ from .props_a import SCENARIOS, VARIANTS, _any_job
 
 if __name__ == '__main__':
     prop, tier = sys.argv[1], sys.argv[2]
-    names = sys.argv[3:] or SCENARIOS[prop][tier]
-    pairs = [(s, v) for s in scenarios.get(names) for v in VARIANTS[prop][tier]]
+    entries = sys.argv[3:] or SCENARIOS[prop][tier]
+    pairs = []
+    for e, s in zip(entries, scenarios.get([e.split(':')[0] for e in entries])):
+        vs = e.split(':')[1].split('+') if ':' in e else VARIANTS[prop][tier]
+        pairs += [(s, v) for v in vs]
     res = core.pmap(_any_job, [('explore', prop, tier, dict(s), v) for s, v in pairs])
     for (s, v), r in zip(pairs, res):
         print('{:22s} {:14s} states={:5d} trans={:5d} depth={:3d} exc={} wall={:6.1f} viol={} cap={}'.format(
